@@ -16,6 +16,7 @@ from . import engine
 
 VERIF = os.path.dirname(os.path.dirname(os.path.abspath(__file__)))
 REPO = os.environ.get("VERIF_REPO", "/repo")
+OUT = os.environ.get("VERIF_OUT", VERIF)   # evidence/ and replays/ of seeded-change lanes go elsewhere
 
 
 def mir_paths(which=("acts",)):
@@ -77,6 +78,7 @@ def explore(I, name, run_path, max_paths=2000, time_budget=None, seed=0, part=No
         try:
             run_path(I, scratch)
         except PathInfeasible:
+            res.extra["infeasible_or_out_of_bound_paths"] = res.extra.get("infeasible_or_out_of_bound_paths", 0) + 1
             continue
         except Inconclusive as e:
             res.inconclusive = "%s | decisions=%s" % (e, I.path.taken)
@@ -164,7 +166,7 @@ class Check:
 
     def run_jobs(self, jobs, procs=None):
         """jobs: list of (module, function, args).  Each returns a ScenarioResult."""
-        procs = procs or min(16, max(1, len(jobs)))
+        procs = procs or min(int(os.environ.get("VERIF_JOBS", "16")), max(1, len(jobs)))
         if procs == 1 or os.environ.get("VERIF_SERIAL"):
             _worker_init(self.mirs, None)
             out = [_worker_run(j) for j in jobs]
@@ -200,15 +202,15 @@ class Check:
             else:
                 new_roles.append((role, vs))
         # replay files for new violations
-        os.makedirs(os.path.join(VERIF, "replays"), exist_ok=True)
-        for f in os.listdir(os.path.join(VERIF, "replays")):
+        os.makedirs(os.path.join(OUT, "replays"), exist_ok=True)
+        for f in os.listdir(os.path.join(OUT, "replays")):
             if f.startswith("%s-%s-" % (self.prop, self.tier)):
-                os.unlink(os.path.join(VERIF, "replays", f))
+                os.unlink(os.path.join(OUT, "replays", f))
         lines = []
         for role, vs, k in known_roles:
             lines.append("KNOWN-FINDING: property=%s %s (%s; %d instance(s))" % (self.prop, role, k.get("what", vs[0].desc), len(vs)))
         for i, (role, vs) in enumerate(new_roles):
-            path = os.path.join(VERIF, "replays", "%s-%s-%d.json" % (self.prop, self.tier, i))
+            path = os.path.join(OUT, "replays", "%s-%s-%d.json" % (self.prop, self.tier, i))
             with open(path, "w") as f:
                 json.dump(dict(property=self.prop, role=role, instances=[v.to_dict() for v in vs[:5]]), f, indent=1, default=str)
             lines.append("VIOLATION property=%s replay=%s  # %s: %s" % (self.prop, path, role, vs[0].desc))
@@ -253,9 +255,16 @@ class Check:
             ),
             assumptions=list(assumptions), wall_s=round(time.time() - self.t0, 2), violations=len(new_roles),
         )
+        counters = {}
+        for r in self.results:
+            for k, v in (getattr(r, "extra", None) or {}).items():
+                if isinstance(v, (int, float)):
+                    counters[k] = counters.get(k, 0) + v
+        if counters:
+            ev["coverage"]["counters"] = counters
         ev["coverage"].update(self.extra_evidence)
-        os.makedirs(os.path.join(VERIF, "evidence"), exist_ok=True)
-        with open(os.path.join(VERIF, "evidence", self.prop + ".json"), "w") as f:
+        os.makedirs(os.path.join(OUT, "evidence"), exist_ok=True)
+        with open(os.path.join(OUT, "evidence", self.prop + ".json"), "w") as f:
             json.dump(ev, f, indent=1, default=str)
         for l in lines:
             print(l)
@@ -265,7 +274,7 @@ class Check:
             self.prop, self.tier, len(self.results), stats["paths"], stats["stmts"], stats["solver_calls"], stats["solver_time"],
             time.time() - self.t0, len(new_roles), len(known_roles), len(faults), len(inconcl), len(vacuous)))
         for i, (role, vs) in enumerate(diverged):
-            path = os.path.join(VERIF, "replays", "%s-%s-diverged-%d.json" % (self.prop, self.tier, i))
+            path = os.path.join(OUT, "replays", "%s-%s-diverged-%d.json" % (self.prop, self.tier, i))
             with open(path, "w") as f:
                 json.dump(dict(property=self.prop, role=role, instances=[v.to_dict() for v in vs[:3]]), f, indent=1, default=str)
             print("MODEL-DIVERGENCE property=%s %s: counterexample did not reproduce on the real engine: %s" % (self.prop, role, json.dumps(vs[0].replay, default=str)[:600]))
